@@ -241,7 +241,7 @@ func (a *api) count(lo, hi []byte) readResult {
 // watchAll opens a prefix watch from revision start; events arrive on the returned channel in
 // the harness' abstract form [type, key#, rev, val, kvrev].
 func (a *api) watchAll(ctx context.Context, prefix string, start uint64) (<-chan []interface{}, error) {
-	out := make(chan []interface{}, 100000)
+	out := make(chan []interface{}, 4096) // (per history: a few dozen batches; 100000 slots each were 2.4 MB that outlived the history)
 	env := a.env
 	if a.etcd == nil {
 		ch, err := env.B.Watch(ctx, prefix, start)
